@@ -1,6 +1,6 @@
 package main
 
-// Effect / frame analysis over the static call graph of /repo (DESIGN 2.7).
+// Effect / frame analysis over the static call graph of /repo (DESIGN 2.4).
 // Conservative: closures count towards the enclosing function; interface methods
 // of repo interfaces resolve to every repo implementation (CHA).
 
